@@ -306,7 +306,7 @@ _EXTRA = {
     'R24': (['C10', 'C11'], 'R24: in the tool the variables are renamed after the tree was rearranged (pipeline order).'),
     'R25': (['C11'], 'R25: --reify-edges and --dereify-edges each guard exactly their own step (both may be given).'),
     'R5': (['C14', 'C20'], 'R5: interpretation turns an inverted triple round through Model.deinvert only (the no-op model overrides exactly that method).'),
-    'R11': (['C14', 'C05', 'C12'], 'R11: a variable reference is compared with the variable set after its alignment suffix was split off.'),
+    'R11': (['C14', 'C05', 'C12', 'C03'], 'R11: a variable reference is compared with the variable set after its alignment suffix was split off.'),
     'R32': (['C14', 'C04'], 'R32: a value that is cast to Variable was tested to be one.'),
     'R90': (['C14'], 'R90: branch targets are taken apart only under the is_atomic test.'),
     'R73': (['C19', 'C14'], 'R73: optional context (a flag, a token) that a function holds under the same name as its callee\'s parameter is passed on.'),
@@ -422,6 +422,8 @@ _EXTRA = {
              'R138: reaching definitions - the role handed to is_role_inverted / canonicalize_role / has_role is never the raw loop variable of a loop over tree branches; it has passed _process_role or partition("~").'),
     'R137': (['C11', 'C12'],
              'R137: in _dereify_agenda the exchange of the two relations of a collapsed node is guarded by get_pushed_variable(g, second) == var (branch facts), not by appears_inverted.'),
+    'R149': (['C15', 'C17', 'C12'],
+             'R149: in every in-place operator method (__ior__, __isub__, ...) no attribute of the right operand is read after the same attribute of self was destructively changed (slice assignment, del, clear/remove/pop, re-binding): the operands may be one object.'),
     'R108': (['C03', 'C05', 'C12', 'C20'], 'R108: in configure no path leads from the _find_next call back to the loop head without the list of passed-over data having been used.'),
     'R87': (['C20', 'C17'], 'R87: the option tables main() builds once are only read by process/_process_in/_process_out (alias-following over what is unpacked from them).'),
     'R86': (['C01', 'C07', 'C08', 'C09', 'C19', 'C20', 'C11', 'C12', 'C17'], 'R86: an argument annotated as Iterable / Iterator / file is walked at most once on every path (a second walk of a file or generator finds nothing).'),
